@@ -10,7 +10,21 @@
     the untouched data under the matching mechanism; symmetric key types are never used.
 (c) Environment: module initialisation with env maps that add / override / leave variables: os.environ after ==
     before, and during load() the variables are set.
-The Lean model replays each run's token log (get_p11_key / sign_using_p11 / p11_init ops) and answers env_cycle.
+(d) SPLIT placement (stream "split"): the public and the private object of ONE key under the label in DIFFERENT slots /
+    modules — one module x 3 slots and two modules x 2 slots; every (position of the public object | none) x (position of
+    the private object), the same slot included as control; the two objects under equal and under different handle NUMBERS
+    (handles are numbered per slot); every other handle number 1..3 of every slot taken by an unrelated PRIVATE key of the
+    same type (a foreign handle number designates a key that signs — wrongly) or by unrelated public objects (it cannot
+    sign); optionally a slot that refuses login (an unrelated one, or the public object's) or a second public object in
+    another slot; x RSA-2048/SHA-256, RSA-1024/SHA-512, RSA private object without exponent, P-256 / P-384 private objects
+    with and without CKA_EC_POINT, point wrapped and bare; x hash on host / on token / unset.  Run through the signer's own
+    path init_pkcs11_modules -> load_pkcs11_key(public=False) -> sign_using_p11.  Oracle from the property text
+    (expected_split): every C_Sign the emulator records goes to the slot AND handle of the PRIVATE object of the label; where
+    the key is found and has a public key: exactly one C_Sign with the documented mechanism / octets, the loaded key
+    references the private object's slot and handle and carries the token's true public key, and the signature verifies
+    under the label's public key (`cryptography`, public numbers of the fixture key: verify_sig); where the label has no
+    usable private object / no public key nothing is loaded.
+The Lean model replays each run's token log (get_p11_key / sign_using_p11 / load_pkcs11_key / p11_init ops) and answers env_cycle.
 """
 
 from __future__ import annotations
@@ -28,7 +42,11 @@ import p11emu
 from lib import Result, hexs
 
 DRIVER = C.DRIVER
-ASSUMPTIONS = ["the token emulator stands in for a PKCS#11 device; PyKCS11 answers absent attributes with None"]
+ASSUMPTIONS = [
+    "the token emulator stands in for a PKCS#11 device; PyKCS11 answers absent attributes with None",
+    "object handles are numbered per slot by the emulator (as on real tokens): a handle number taken from one slot designates whatever object has that number in another",
+    "in the split stream the public and the private object under the label are halves of one fixture key, so the public key of the label is that key's whichever object supplies it",
+]
 TRUSTED = ["harness/p11emu.py token emulator"]
 
 
@@ -154,6 +172,217 @@ def expected_lookup(lay: dict[str, Any], public: bool) -> Any:
     return "none"
 
 
+# --------------------------------------------------------------------------------------
+# (d) the two halves of ONE key placed in different slots / modules
+# --------------------------------------------------------------------------------------
+
+SPLIT_SHAPES = [[3], [2, 2]]  # slots per module
+SPLIT_PROFILES = [
+    # name, key kind, DNSSEC algorithm, private object carries the public attributes, EC point wrapped
+    ("rsa2048-sha256", "rsa", 8, True, True),
+    ("rsa1024-sha512", "rsa", 10, True, True),
+    ("rsa-private-without-exponent", "rsa", 8, False, True),
+    ("p256-private-without-point-wrapped", "ec", 13, False, True),
+    ("p256-private-without-point-bare", "ec", 13, False, False),
+    ("p256-private-with-point", "ec", 13, True, True),
+    ("p384-private-without-point", "ec", 14, False, True),
+    ("p384-private-with-point-bare", "ec", 14, True, False),
+]
+SPLIT_HANDLES = 3  # every slot of a split layout holds objects under the handle numbers 1..3
+
+
+def split_key(profile: tuple[str, str, int, bool, bool]) -> Any:
+    _name, kind, alg, _attrs, _wrapped = profile
+    if kind == "rsa":
+        return K.rsa_keys(2048, 65537)[0] if alg == 8 else K.rsa_keys(1024, 65537)[2]
+    return K.ec_keys("P-256" if alg == 13 else "P-384")[1]
+
+
+def split_decoys(tk: Any) -> list[Any]:
+    """unrelated keys of the same type and size as `tk` (what a foreign handle number may designate)"""
+    if tk.kind == "rsa":
+        return [k for k in K.rsa_keys(tk.bits) if k.n != tk.n]
+    return [k for k in K.ec_keys(tk.curve) if k.x != tk.x]
+
+
+def split_positions(shape: list[int]) -> list[tuple[int, int]]:
+    return [(mi, si) for mi, n in enumerate(shape) for si in range(n)]
+
+
+def split_cases(r: Any, tier: str) -> list[dict[str, Any]]:
+    """Placements of the public and the private object of label 'L' (two halves of ONE key) over the slots of one module
+    with three slots and of two modules with two slots each: every (position of the public object or none) x (position
+    of the private object), the two objects under equal and under different handle NUMBERS (handles are numbered per
+    slot), all other handle numbers of every slot taken by unrelated PRIVATE keys of the same type (a foreign handle
+    number designates a key that signs — wrongly) or by unrelated public objects (a foreign number cannot sign), some
+    with a slot that refuses login, some with a second public object in a later slot; x key profile x hashing mode."""
+    out: list[dict[str, Any]] = []
+    quick = tier == "quick"
+    for shape in SPLIT_SHAPES:
+        pos = split_positions(shape)
+        for pub in [None] + pos:
+            for priv in pos:
+                for fillers in ("private-decoys", "public-fillers"):
+                    pairs = [(a, b) for a in range(1, SPLIT_HANDLES + 1) for b in range(1, SPLIT_HANDLES + 1) if not (pub == priv and a == b)]
+                    if quick:
+                        same = [p for p in pairs if p[0] == p[1]]
+                        diff = [p for p in pairs if p[0] != p[1]]
+                        pairs = ([r.choice(same)] if same else []) + [r.choice(diff)]
+                    for a, b in pairs:
+                        for prof in SPLIT_PROFILES:
+                            if quick and r.random() < 0.45:
+                                continue
+                            for on_hsm in ((False, True, None) if not quick else (r.choice([False, True, None]),)):
+                                c: dict[str, Any] = {
+                                    "via": "load_pkcs11_key", "split": True, "shape": shape, "pub": list(pub) if pub else None, "priv": list(priv), "pub_handle": a, "priv_handle": b,
+                                    "fillers": fillers, "profile": prof[0], "alg": prof[2], "hash_using_hsm": on_hsm, "refused": None, "extra_pub": None,
+                                }
+                                k = r.random()
+                                others = [p for p in pos if p != priv and p != pub]
+                                if k < 0.15 and others:
+                                    c["refused"] = list(r.choice(others))  # an unrelated slot refuses login: the session list shifts
+                                elif k < 0.22 and pub is not None and pub != priv:
+                                    c["refused"] = list(pub)  # the slot of the public object refuses login: that object does not exist for the tool
+                                elif k < 0.40 and others:
+                                    c["extra_pub"] = list(r.choice(others))  # a second public object of the key in another slot: the first slot that has any counts
+                                out.append(c)
+    return out
+
+
+def build_split_world(c: dict[str, Any]) -> tuple[p11emu.World, list[dict[str, Any]], Any]:
+    import PyKCS11.LowLevel as LL
+
+    prof = next(p for p in SPLIT_PROFILES if p[0] == c["profile"])
+    _name, kind, _alg, priv_attrs, wrapped = prof
+    tk = split_key(prof)
+    decoys = split_decoys(tk)
+    mods, desc = [], []
+    di = 0
+    for mi, nslots in enumerate(c["shape"]):
+        eslots = []
+        for si in range(nslots):
+            here = [mi, si]
+            es = p11emu.EmuSlot(si, login_ok=(c["refused"] != here))
+            want: dict[int, str] = {}
+            if c["pub"] == here:
+                want[c["pub_handle"]] = "pub"
+            if c["priv"] == here:
+                want[c["priv_handle"]] = "priv"
+            if c["extra_pub"] == here:
+                want[next(h for h in range(1, SPLIT_HANDLES + 1) if h not in want)] = "pub"
+            for h in range(1, SPLIT_HANDLES + 1):
+                what = want.get(h)
+                before = es.next_handle
+                if what is None:
+                    dk = decoys[di % len(decoys)]
+                    di += 1
+                    label = f"D-{mi}-{si}-{h}"
+                    as_private = c["fillers"] == "private-decoys"
+                    if kind == "rsa":
+                        es.add_rsa(label, dk, public=not as_private, private=as_private)
+                    else:
+                        es.add_ec(label, dk, public=not as_private, private=as_private, wrapped_point=wrapped, priv_has_point=True)
+                elif kind == "rsa":
+                    es.add_rsa("L", tk, public=(what == "pub"), private=(what == "priv"), priv_has_pub_attrs=priv_attrs)
+                else:
+                    es.add_ec("L", tk, public=(what == "pub"), private=(what == "priv"), wrapped_point=wrapped, priv_has_point=priv_attrs)
+                assert before == h and es.next_handle == h + 1
+            eslots.append(es)
+        mods.append(p11emu.EmuModule(f"emu{mi}", eslots))
+        desc.append({"path": f"emu{mi}", "pin": "1234"})
+    _ = LL
+    return p11emu.World(mods), desc, tk
+
+
+def expected_split(c: dict[str, Any]) -> dict[str, Any]:
+    """From the property text: which object signs.  The key is found in the first slot — module order, slot order, slots
+    that refused login removed — that has ANY object of the requested class under the label; the private-key operation
+    belongs to the slot and handle of that PRIVATE object; the public key comes from the private object's own public
+    attributes or, when it has none, from the public object found by the same rule."""
+    prof = next(p for p in SPLIT_PROFILES if p[0] == c["profile"])
+    _name, kind, _alg, priv_attrs, _wrapped = prof
+    usable = [list(p) for p in split_positions(c["shape"]) if list(p) != c["refused"]]
+    for mi, nslots in enumerate(c["shape"]):
+        if not any(p[0] == mi for p in usable):
+            return {"outcome": "init-fails"}
+    if c["priv"] not in usable:
+        return {"outcome": "no-private-object"}
+    where = {"module": f"emu{c['priv'][0]}", "slot": c["priv"][1], "handle": c["priv_handle"]}
+    if priv_attrs:
+        return {"outcome": "signs", **where, "public_from": "private-object"}
+    if kind == "rsa":
+        return {"outcome": "error-or-none"}  # an RSA private object without CKA_PUBLIC_EXPONENT yields no public key
+    pubs = [p for p in usable if p == c["pub"] or p == c["extra_pub"]]
+    if not pubs:
+        return {"outcome": "no-public-key"}
+    return {"outcome": "signs", **where, "public_from": "public-object"}
+
+
+def split_relation(c: dict[str, Any]) -> str:
+    """where the public object the tool gets to see (first usable slot that has any) lies, relative to the private object"""
+    pubs = [list(p) for p in split_positions(c["shape"]) if list(p) != c["refused"] and (list(p) == c["pub"] or list(p) == c["extra_pub"])]
+    if not pubs:
+        return "no-public-object"
+    p = pubs[0]
+    return "same-slot" if p == c["priv"] else "other-slot" if p[0] == c["priv"][0] else "other-module"
+
+
+def exec_split(sc: dict[str, Any], msg: bytes) -> tuple[Any, ...]:
+    """One run of the REAL signer path on a split layout: init_pkcs11_modules -> load_pkcs11_key(public=False) -> sign_using_p11."""
+    from datetime import datetime, timezone
+
+    from kskm.common.config_misc import KSKKey, KSKPolicy
+    from kskm.common.data import AlgorithmDNSSEC
+    from kskm.ksr.data import RequestBundle
+    from kskm.misc import hsm as H
+    from kskm.signer.key import load_pkcs11_key
+
+    inc = datetime(2024, 1, 1, tzinfo=timezone.utc)
+    bundle = RequestBundle(id="b", inception=inc, expiration=datetime(2024, 1, 22, tzinfo=timezone.utc), keys=set(), signatures=set(), signers=None)
+    world, desc, tk = build_split_world(sc)
+    cfg = mk_cfg(desc)
+    alg_v, on_hsm = sc["alg"], sc["hash_using_hsm"]
+    ksk = KSKKey(description="d", label="L", algorithm=AlgorithmDNSSEC(alg_v), valid_from=inc, rsa_size=(tk.k * 8 if tk.kind == "rsa" else None), rsa_exponent=(tk.e if tk.kind == "rsa" else None), hash_using_hsm=on_hsm)
+    hold: dict[str, Any] = {}
+    with world.installed(), C.Oracles() as orc:
+
+        def go_load() -> Any:
+            p11 = H.init_pkcs11_modules(cfg)
+            return load_pkcs11_key(ksk, p11, KSKPolicy(), bundle, public=False)
+
+        def conv_ck(ck: Any) -> Any:
+            hold["ck"] = ck
+            return None if ck is None else {"p11": key_j(ck.p11), "dns": lib.key_j(ck.dns)}
+
+        impl_load = lib.run_impl(go_load, conv_ck)
+        n_load = len(world.log)
+        impl_sign = lib.run_impl(lambda: H.sign_using_p11(hold["ck"].p11, msg, AlgorithmDNSSEC(alg_v)), hexs) if hold.get("ck") is not None else None
+        orcs = orc.take()
+    return world, cfg, tk, ksk, impl_load, n_load, impl_sign, orcs
+
+
+def verify_sig(tk: Any, alg_v: int, msg: bytes, sig: bytes) -> bool:
+    """Does `sig` verify over `msg` under the PUBLIC numbers of test key `tk` (RSASSA-PKCS1-v1_5 / ECDSA r||s with the
+    hash of the DNSSEC algorithm)?  Independent of the repository and of the emulator: `cryptography` only."""
+    from cryptography.exceptions import InvalidSignature
+    from cryptography.hazmat.primitives import hashes
+    from cryptography.hazmat.primitives.asymmetric import ec, padding, rsa, utils
+
+    h = {"sha1": hashes.SHA1(), "sha256": hashes.SHA256(), "sha384": hashes.SHA384(), "sha512": hashes.SHA512()}[K.ALG_HASH[alg_v]]
+    try:
+        if tk.kind == "rsa":
+            rsa.RSAPublicNumbers(tk.e, tk.n).public_key().verify(sig, msg, padding.PKCS1v15(), h)
+        else:
+            if len(sig) != 2 * tk.size:
+                return False
+            der = utils.encode_dss_signature(int.from_bytes(sig[: tk.size], "big"), int.from_bytes(sig[tk.size :], "big"))
+            curve = ec.SECP256R1() if tk.curve == "P-256" else ec.SECP384R1()
+            ec.EllipticCurvePublicNumbers(tk.x, tk.y, curve).public_key().verify(der, msg, ec.ECDSA(h))
+    except (InvalidSignature, ValueError):
+        return False
+    return True
+
+
 def run(tier: str, driver_ok: bool) -> Result:
     import PyKCS11.LowLevel as LL
 
@@ -164,7 +393,12 @@ def run(tier: str, driver_ok: bool) -> Result:
     res.rule = (
         "(a) token layouts: 1..3 slots x {ok, login refused, open refused} x (public, private) object counts in {0,1,2}^2 (exhaustive for <=2 slots, "
         "sampled for 3 in quick), two-module layouts, EC/RSA attribute profiles; public and private lookups; (b) 12 algorithms x hash on host/token x "
-        "RSA 1024/2048/3072/4096 x message lengths 0..300; (c) env maps that add/override/leave; non-trivial = distinct case"
+        "RSA 1024/2048/3072/4096 x message lengths 0..300; (c) env maps that add/override/leave; (d) split placement: public and private object of one key "
+        "in the same / another slot / another module (1x3 and 2x2 slots; every pair of positions, public object absent too) x equal / different per-slot handle numbers "
+        "x remaining handle numbers held by unrelated private keys / public objects x a slot refusing login / a second public object x 8 key profiles "
+        "(RSA, RSA private without exponent, P-256/P-384 private with / without EC point, wrapped / bare) x hash on host / token / unset, through "
+        "load_pkcs11_key + sign_using_p11: C_Sign must reach slot+handle of the PRIVATE object and the signature must verify under the label's public key; "
+        "non-trivial = distinct case"
     )
     r = lib.rng("C15")
     lines: list[dict[str, Any]] = []
@@ -344,6 +578,89 @@ def run(tier: str, driver_ok: bool) -> Result:
                         if sg["mechanism"] != int(want_mech) or bytes.fromhex(sg["data"]) != want_data:
                             res.violation("octets / mechanism handed to the token are not the documented ones", case, key=f"octets-load:alg{alg_v}:{on_hsm}", got={"mechanism": sg["mechanism"], "data": sg["data"][:80]}, want={"mechanism": int(want_mech), "data": hexs(want_data)[:80]})
 
+    # ---- (d) the two halves of one key in different slots / modules --------------------------------------
+    # PKCS#11 object handles mean something only in the session (slot) that returned them: whatever the tool combines
+    # from the public and the private object of a label, the private-key operation has to reach the slot AND handle of the
+    # PRIVATE object, and what comes back has to verify under the label's public key.
+    kpol = KSKPolicy()
+    kpol_j = {"signaturePolicy": lib.sigpolicy_j(kpol.signature_policy), "ttl": kpol.ttl, "signersName": kpol.signers_name}
+    for sc in split_cases(r, tier):
+        msg = r.randbytes(r.choice([0, 33, 200]))
+        world, cfg, tk, ksk, impl_load, n_load, impl_sign, orcs = exec_split(sc, msg)
+        alg_v, on_hsm = sc["alg"], sc["hash_using_hsm"]
+        case = dict(sc, msg=hexs(msg))
+        exp = expected_split(sc)
+        relation = split_relation(sc)
+        key = f"split:{relation}:{sc['profile']}"
+        res.count(case)
+        res.bump("split")
+        res.bump("split:public-object:" + relation)
+        res.bump("split:handle-numbers:" + ("equal" if sc["pub_handle"] == sc["priv_handle"] else "different"))
+        res.bump("split:other-handles:" + sc["fillers"])
+        res.bump("split:profile:" + sc["profile"])
+        res.bump("split:expected:" + exp["outcome"])
+        if sc["refused"]:
+            res.bump("split:a-slot-refuses-login")
+        if sc["extra_pub"]:
+            res.bump("split:second-public-object")
+        signs = [rec for rec in world.log if rec["op"] == "sign"]
+        # 1. every private-key operation goes to the slot and handle of the private object of the label
+        priv_at = {"module": f"emu{sc['priv'][0]}", "slot": sc["priv"][1], "handle": sc["priv_handle"]}
+        for sg in signs:
+            at = {"module": sg["module"], "slot": sg["slot"], "handle": sg["handle"]}
+            if exp["outcome"] in ("init-fails", "no-private-object") or at != priv_at:
+                holder = world.modules[sg["module"]].slot(sg["slot"]).objects.get(sg["handle"])
+                res.violation(
+                    "C_Sign was not sent to the slot and handle of the private object of the label", case, key=key, sign_sent_to=at, private_object_of_label=priv_at,
+                    object_under_that_handle_there=None if holder is None else {"label": holder.label, "class": "private" if holder.cls == int(LL.CKO_PRIVATE_KEY) else "public"},
+                    combined_key=impl_load.get("ok", impl_load) if isinstance(impl_load, dict) else impl_load, impl=impl_sign,
+                )
+        # 2. where the property says the key is found and usable: exactly one C_Sign, documented mechanism and octets,
+        #    and the signature verifies under the public key of the label
+        if exp["outcome"] == "signs":
+            ck_j = impl_load.get("ok") if isinstance(impl_load, dict) else None
+            if not ck_j:
+                res.violation("exactly one private object with the label in the first slot that has any (and a public key for it), but no key was loaded", case, key=key, impl=impl_load)
+            else:
+                p = ck_j["p11"]
+                true_pk = base64.b64encode(tk.dnskey_public_key()).decode() if tk.kind == "rsa" else None
+                pk_ok = p["publicKey"] == true_pk if tk.kind == "rsa" else (p["publicKey"] is not None and base64.b64decode(p["publicKey"])[-2 * tk.size :] == tk.ec_point(prefix=False))
+                if (p["module"], p["slot"], p["privHandle"]) != (priv_at["module"], priv_at["slot"], priv_at["handle"]):
+                    res.violation("the loaded key does not reference the slot and handle of the private object of the label", case, key=key, loaded=p, private_object_of_label=priv_at)
+                if not pk_ok:
+                    res.violation("derived public key is not the token's true key", case, key=key, loaded=p)
+                if not (isinstance(impl_sign, dict) and "ok" in impl_sign) or len(signs) != 1:
+                    res.violation("signing with a supported algorithm did not reach the token exactly once", case, key=key, impl=impl_sign, sign_operations=len(signs))
+                else:
+                    sg = signs[0]
+                    h = K.ALG_HASH[alg_v]
+                    if on_hsm:
+                        want_mech = {8: LL.CKM_SHA256_RSA_PKCS, 10: LL.CKM_SHA512_RSA_PKCS, 13: LL.CKM_ECDSA_SHA256, 14: LL.CKM_ECDSA_SHA384}[alg_v]
+                        want_data = msg
+                    elif tk.kind == "rsa":
+                        want_mech, want_data = LL.CKM_RSA_X_509, tk.emsa(h, msg)
+                    else:
+                        want_mech, want_data = LL.CKM_ECDSA, hashlib.new(h, msg).digest()
+                    if sg["mechanism"] != int(want_mech) or bytes.fromhex(sg["data"]) != want_data:
+                        res.violation("octets / mechanism handed to the token are not the documented ones", case, key=key, got={"mechanism": sg["mechanism"], "data": sg["data"][:80]}, want={"mechanism": int(want_mech), "data": hexs(want_data)[:80]})
+                    if not verify_sig(tk, alg_v, msg, bytes.fromhex(impl_sign["ok"])):
+                        res.violation("the signature obtained from the token does not verify under the public key of the label", case, key=key, sign_sent_to={"module": sg["module"], "slot": sg["slot"], "handle": sg["handle"]}, private_object_of_label=priv_at)
+                    else:
+                        res.bump("split:signature-verifies-under-the-label's-key")
+        elif exp["outcome"] in ("no-public-key", "no-private-object", "init-fails"):
+            if isinstance(impl_load, dict) and impl_load.get("ok"):
+                res.violation("a key was loaded although the label has no usable private object / no public key on the token", case, key=key, impl=impl_load)
+        # 3. the tie: the model replays the log of the loading, and of loading + signing
+        log = C.canon_log(world.log)
+        lines.append({"op": "load_pkcs11_key", "hsm": C.hsm_j(cfg), "ksk": C.ksk_j(ksk), "kskPolicy": kpol_j, "bundle": lib.bundle_j(bundle), "public": False, "log": log[:n_load]})
+        checks.append({"case": case, "impl": impl_load, "log": log[:n_load], "what": "load_pkcs11_key"})
+        if impl_sign is not None:
+            lines.append({"op": "sign_using_p11", "hsm": C.hsm_j(cfg), "label": "L", "hashUsingHsm": on_hsm, "data": hexs(msg), "algorithm": alg_v, "log": log, **orcs})
+            checks.append({"case": case, "impl": impl_sign, "log": log, "what": "sign_using_p11"})
+        if res.stats.get("split:sampled", 0) < 2 and relation in ("other-slot", "other-module") and exp["outcome"] == "signs" and exp.get("public_from") == "public-object":
+            res.stats["split:sampled"] = res.stats.get("split:sampled", 0) + 1
+            res.sample({"case": case, "expected": exp, "signs": [{k: sg[k] for k in ("module", "slot", "handle", "mechanism")} for sg in signs], "loaded": (impl_load.get("ok") or {}).get("p11") if isinstance(impl_load, dict) else None}, limit=8)
+
     # symmetric key types never sign
     for kt in (H.KeyType.AES, H.KeyType.DES3):
         key = H.KSKM_P11Key(label="S", key_type=kt, key_class=H.KeyClass.SECRET, public_key=None)
@@ -418,4 +735,22 @@ def run(tier: str, driver_ok: bool) -> Result:
 
 
 def replay(obj: dict[str, Any]) -> Any:
-    return {"recorded": obj}
+    v = obj.get("violation") or obj.get("disagreement") or {}
+    c = v.get("case") or {}
+    out: dict[str, Any] = {"recorded": obj}
+    if isinstance(c, dict) and c.get("split"):
+        sc = {k: x for k, x in c.items() if k != "msg"}
+        msg = bytes.fromhex(c.get("msg", ""))
+        world, _cfg, tk, _ksk, impl_load, _n, impl_sign, _orcs = exec_split(sc, msg)
+        signs = [{k: rec.get(k) for k in ("module", "slot", "handle", "mechanism", "ans")} for rec in world.log if rec["op"] == "sign"]
+        for sg in signs:
+            sg["ans"] = (sg["ans"] or "")[:32] + "..." if isinstance(sg["ans"], str) and len(sg["ans"]) > 32 else sg["ans"]
+        out["now"] = {
+            "expected_by_the_property": expected_split(sc),
+            "private_object_of_label": {"module": f"emu{sc['priv'][0]}", "slot": sc["priv"][1], "handle": sc["priv_handle"]},
+            "sign_operations": signs,
+            "loaded_key": (impl_load.get("ok") or {}).get("p11") if isinstance(impl_load, dict) and isinstance(impl_load.get("ok"), dict) else impl_load,
+            "signature_verifies_under_the_label's_public_key": bool(isinstance(impl_sign, dict) and "ok" in impl_sign and verify_sig(tk, sc["alg"], msg, bytes.fromhex(impl_sign["ok"]))),
+            "token_layout": [{"module": p, "slots": [{"slot": s_.slot_id, "loginOk": s_.login_ok, "objects": {h: [o.label, "private" if o.cls == 3 else "public"] for h, o in sorted(s_.objects.items())}} for s_ in m.slots]} for p, m in world.modules.items()],
+        }
+    return out
